@@ -88,7 +88,7 @@ type ruleFail struct{ law, witness string }
 
 func checkC20(c *Ctx, r *Report) {
 	r.Level = "proof"
-	r.Explain = "Proof by exhaustive abstract interpretation over order types: SequenceID.Before only compares and copies its uint64 fields, so its result depends only on the weak ordering of the fields (and 0); the checker walks the SSA form of Before under every weak ordering of the fields of one, two and three tokens and discharges irreflexivity, asymmetry, transitivity and agreement with ascending Seq for ALL uint64 values. The same evaluator composes String()'s arm selection with the parser's slot table (both extracted from the code) and shows that the resume position (SafeSequence) and the printed form survive a print/parse cycle for every order type. Structural obligations: writer/reader slot table agreement, empty slot only where the parser allows it, every parse failure is a 4xx error, feeds are merged with this Before."
+	r.Explain = "Proof by exhaustive abstract interpretation over order types: SequenceID.Before only compares and copies its uint64 fields, so its result depends only on the weak ordering of the fields (and 0); the checker walks the SSA form of Before under every weak ordering of the fields of one, two and three tokens and discharges irreflexivity, asymmetry, transitivity and agreement with ascending Seq for ALL uint64 values. The same evaluator composes String()'s arm selection with the parser's slot table (both extracted from the code) and shows that the resume position (SafeSequence) and the printed form survive a print/parse cycle for every order type. Structural obligations: writer/reader slot table agreement, empty slot only where the parser allows it, every parse failure is a 4xx error and every caller of the parsers ends the operation on it (none continues with the zero token), feeds are merged with this Before."
 	r.Trusted = append(r.Trusted, "the E6 evaluator (sgcheck/cmpeval.go) and its fragment check", "fmt %d / strconv.FormatUint and strconv.ParseUint(base 10) being mutually inverse on uint64", "strings.Split(s, \":\") yielding the colon-delimited components")
 	before := c.Func("(db.SequenceID).Before")
 	safe := c.Func("(db.SequenceID).SafeSequence")
@@ -100,6 +100,7 @@ func checkC20(c *Ctx, r *Report) {
 	r.Rule("C20-O4", "E7 tables", "each printed form with k components maps slot i to the field the k-component parser arm assigns from component i; an empty slot is printed only where the parser passes allowEmpty", 4)
 	r.Rule("C20-O5", "E2 pathrules", "every failure exit of the token parser returns a client error (base.HTTPErrorf with a 4xx status)", 3)
 	r.Rule("C20-O6", "E3 def-use", "the changes feed merges and advances by SequenceID.Before; the checkpointer sorts by it", 2)
+	c20O7(c, r)
 	if before == nil || safe == nil || str == nil || parse == nil {
 		r.Fail("C20-O1", "anchor Before/SafeSequence/intSeqToString/parseIntegerSequenceID", "-", "function not found")
 		return
